@@ -136,6 +136,14 @@ impl<'a> LinearLocator<'a> {
     }
 
     pub fn locate(&mut self, offset: crate::text_size::TextSize) -> SourceLocation {
+        #[cfg(rustpython_parser_verif)]
+        crate::verif_trace::emit(|| {
+            format!(
+                "{{\"ev\":\"locate\",\"only\":false,\"o\":{},\"cursor\":{}}}",
+                offset.to_u32(),
+                self.state.cursor.to_u32()
+            )
+        });
         debug_assert!(
             self.state.cursor <= offset,
             "{:?} -> {:?} {}",
@@ -149,6 +157,14 @@ impl<'a> LinearLocator<'a> {
         } else {
             self.state.cursor = offset;
         }
+        #[cfg(rustpython_parser_verif)]
+        crate::verif_trace::emit(|| {
+            format!(
+                "{{\"ev\":\"located\",\"row\":{},\"col\":{}}}",
+                self.state.line_number.get(),
+                column.get()
+            )
+        });
         SourceLocation {
             row: self.state.line_number,
             column,
@@ -156,8 +172,24 @@ impl<'a> LinearLocator<'a> {
     }
 
     pub fn locate_only(&mut self, offset: crate::text_size::TextSize) -> SourceLocation {
+        #[cfg(rustpython_parser_verif)]
+        crate::verif_trace::emit(|| {
+            format!(
+                "{{\"ev\":\"locate\",\"only\":true,\"o\":{},\"cursor\":{}}}",
+                offset.to_u32(),
+                self.state.cursor.to_u32()
+            )
+        });
         let (column, new_state) = self.locate_inner(offset);
         let state = new_state.as_ref().unwrap_or(&self.state);
+        #[cfg(rustpython_parser_verif)]
+        crate::verif_trace::emit(|| {
+            format!(
+                "{{\"ev\":\"located\",\"row\":{},\"col\":{}}}",
+                state.line_number.get(),
+                column.get()
+            )
+        });
         SourceLocation {
             row: state.line_number,
             column,
